@@ -7,29 +7,37 @@
 EXTENDS ZoneShapes
 
 CONSTANTS MaxLines,
-          ShapeSet     \* the shapes used (indices into Shapes)
+          ShapeSet,    \* the shapes used (indices into Shapes)
+          PolSet       \* the AMBIG policies explored, as bit codes io + 2 it + 4 go + 8 gt (a subset keeps the run short)
 
 VARIABLES hist        \* the lines so far (indices into Shapes)
 vars == <<zvars, hist>>
 
 Lines(h) == [i \in 1..Len(h) |-> Shapes[h[i]]]
 
-Init == hist = <<>> /\ \E i \in 0..(NCfg - 1) : ZInit(CfgOf(i))
+PolOf(k) == [io |-> k % 2 = 1, it |-> (k \div 2) % 2 = 1, go |-> (k \div 4) % 2 = 1, gt |-> (k \div 8) % 2 = 1]
+Init == hist = <<>> /\ pol \in { PolOf(k) : k \in PolSet } /\ \E i \in 0..(NCfg - 1) : ZInit(CfgOf(i))
 Next == /\ Len(hist) < MaxLines
         /\ \E i \in ShapeSet : LineAction(Shapes[i]) /\ hist' = Append(hist, i)
 Spec == Init /\ [][Next]_vars
 
 LastLine == Shapes[hist'[Len(hist')]]
+NoCarry == [io |-> FALSE, it |-> FALSE, go |-> FALSE, gt |-> FALSE]
 
 \* ---- the machine and the fold agree: the states reachable by a line sequence are exactly RunLines of it
-Functional == Cur \in RunLines({Start(cfg)}, cfg, Lines(hist), 1, 0)
-\* ---- more than one outcome only through the AMBIG carry-out of $INCLUDE / $GENERATE (or include depth)
+Functional == Cur \in RunLines({StartP(cfg, pol)}, cfg, Lines(hist), 1, 0)
+\* ---- given the policy, more than one outcome only where the include depth is left open; and without
+\*      $INCLUDE / $GENERATE the policy does not matter
 Deterministic ==
-  (\A i \in 1..Len(hist) : Shapes[hist[i]].k \notin {"include", "generate"}) =>
-     Cardinality(RunLines({Start(cfg)}, cfg, Lines(hist), 1, 0)) = 1
+  /\ (\A i \in 1..Len(hist) : Shapes[hist[i]].k # "include" \/ Shapes[hist[i]].file # F_self) =>
+        Cardinality(RunLines({StartP(cfg, pol)}, cfg, Lines(hist), 1, 0)) = 1
+  /\ (\A i \in 1..Len(hist) : Shapes[hist[i]].k \notin {"include", "generate"}) =>
+        (pol = NoCarry => Cardinality(Denotations(cfg, Lines(hist))) = 1)
+PolicyReduction == pol = NoCarry => DenotationsAllPolicies(cfg, Lines(hist)) = Denotations(cfg, Lines(hist))
 \* ---- abstract-level spellings: order of TTL and class, everything explicit, everything omitted
 Flip(l) == IF l.k \in {"rr", "generate"} THEN [l EXCEPT !.order = IF @ = "tc" THEN "ct" ELSE "tc"] ELSE l
 SpellingInvariant ==
+  pol = NoCarry =>       \* (quantifies over all policies itself: evaluated for one representative)
   LET ls == Lines(hist)  m == Meaning(cfg, ls) IN
   /\ Meaning(cfg, [i \in 1..Len(ls) |-> Flip(ls[i])]) = m
   /\ Meaning(cfg, Explicit(cfg, ls)) = m
